@@ -12,7 +12,7 @@ from harness.framework import Suite
 PID = "C19"
 LEAN_MODS = ["SwcVerif.Props.C19", "SwcVerif.Props.C19Gen"]
 TRANSLATE_ALGO = ["AlgoPopulation"]    # Gen/AlgoPopulation.lean is regenerated from swcgeom/core/population.py on every run
-DRIVER_FILES = ["SwcVerif/Model/AlgoRun.lean"]
+DRIVER_FILES = ["SwcVerif/Model/AlgoRunPopulation.lean"]
 THEOREMS = [
     "C19.getIdx_spec", "C19.step_len", "C19.load_at_most_once", "C19.loads_only_on_demand", "C19.log_monotone", "C19.get_returns",
     "C19.iter_returns", "C19.cumsum_spec", "C19.chain_len", "C19.chain_index", "C19.chain_index_neg", "C19.nest_index",
